@@ -19,6 +19,16 @@ type parked struct {
 
 func (s *Session) computeRPO() {
 	s.rpo = map[*ssa.BasicBlock]int{}
+	s.fwdPreds = map[*ssa.BasicBlock]int{}
+	s.rpoDone = map[*ssa.Function]bool{}
+	s.rpoFor(s.fn)
+}
+
+func (s *Session) rpoFor(fn *ssa.Function) {
+	if s.rpoDone[fn] {
+		return
+	}
+	s.rpoDone[fn] = true
 	seen := map[*ssa.BasicBlock]bool{}
 	var post []*ssa.BasicBlock
 	var dfs func(b *ssa.BasicBlock)
@@ -34,14 +44,13 @@ func (s *Session) computeRPO() {
 		}
 		post = append(post, b)
 	}
-	if len(s.fn.Blocks) > 0 {
-		dfs(s.fn.Blocks[0])
+	if len(fn.Blocks) > 0 {
+		dfs(fn.Blocks[0])
 	}
 	for i := range post {
 		s.rpo[post[len(post)-1-i]] = i
 	}
-	s.fwdPreds = map[*ssa.BasicBlock]int{}
-	for _, b := range s.fn.Blocks {
+	for _, b := range fn.Blocks {
 		for _, succ := range b.Succs {
 			if !succ.Dominates(b) {
 				s.fwdPreds[succ]++
@@ -51,17 +60,16 @@ func (s *Session) computeRPO() {
 }
 
 func (s *Session) shouldPark(st *State, b, from *ssa.BasicBlock) bool {
-	if !s.mergeOn || st.fr.parent != nil || st.fr.fn != s.fn || b.Parent() != s.fn {
+	if !s.mergeOn || st.fr.fn != b.Parent() {
 		return false
 	}
+	s.rpoFor(b.Parent())
 	if s.resumeBlock == b {
 		s.resumeBlock = nil
 		return false
 	}
 	if from != nil && b.Dominates(from) {
-		if li := s.loops[b]; li != nil && li.blocks[from] {
-			return false // back edge: checked immediately
-		}
+		return false // back edge: checked immediately
 	}
 	if s.fwdPreds[b] < 2 {
 		return false
@@ -77,10 +85,13 @@ func (s *Session) shouldPark(st *State, b, from *ssa.BasicBlock) bool {
 // drain resumes parked states, lowest block (in reverse post-order) first.
 func (s *Session) drain() {
 	for len(s.pending) > 0 {
+		// deepest inlined frame first (it must return before its caller continues), then block order
 		var pick *ssa.BasicBlock
-		for b := range s.pending {
-			if pick == nil || s.rpo[b] < s.rpo[pick] {
-				pick = b
+		pickDepth := -1
+		for b, arr := range s.pending {
+			d := arr[0].st.fr.depth
+			if pick == nil || d > pickDepth || (d == pickDepth && (b.Parent() != pick.Parent() && b.Parent().Name() < pick.Parent().Name() || b.Parent() == pick.Parent() && s.rpo[b] < s.rpo[pick])) {
+				pick, pickDepth = b, d
 			}
 		}
 		arr := s.pending[pick]
@@ -93,40 +104,58 @@ func (s *Session) drain() {
 	}
 }
 
-func sameDefers(a, b []deferred) bool {
-	if len(a) != len(b) {
-		return false
+func chainShape(f *Frame) string {
+	out := ""
+	for ; f != nil; f = f.parent {
+		out += fmt.Sprintf("%p/%s;", f.fn, f.site)
 	}
-	for i := range a {
-		if a[i].call != b[i].call {
-			return false
-		}
-	}
-	return true
+	return out
 }
 
 func (s *Session) mergeStates(arr []parked) []parked {
 	if len(arr) == 1 {
 		return arr
 	}
-	base := arr[0].st
-	for _, p := range arr[1:] {
-		if !sameDefers(base.fr.defers, p.st.fr.defers) || p.st.fr.parent != nil {
-			return arr // cannot merge: resume separately
+	// group by frame-chain shape and deferred calls; merge each group
+	groups := map[string][]parked{}
+	var order []string
+	for _, p := range arr {
+		key := chainShape(p.st.fr)
+		for f := p.st.fr; f != nil; f = f.parent {
+			for _, d := range f.defers {
+				key += fmt.Sprintf("d%p", d.call)
+			}
+			key += "|"
 		}
+		if _, ok := groups[key]; !ok {
+			order = append(order, key)
+		}
+		groups[key] = append(groups[key], p)
 	}
+	var out []parked
+	for _, key := range order {
+		out = append(out, s.mergeGroup(groups[key]))
+	}
+	return out
+}
+
+func (s *Session) mergeGroup(arr []parked) parked {
+	if len(arr) == 1 {
+		return arr[0]
+	}
+	base := arr[0].st
 	n := len(arr)
 	// common prefix of the path conditions
 	k := 0
 	for ; ; k++ {
 		ok := true
 		for _, p := range arr {
-			if k >= len(p.st.pc) || p.st.pc[k] != base.pc[k] {
+			if k >= len(p.st.pc) || k >= len(base.pc) || p.st.pc[k] != base.pc[k] {
 				ok = false
 				break
 			}
 		}
-		if !ok || k >= len(base.pc) {
+		if !ok {
 			break
 		}
 	}
@@ -156,12 +185,10 @@ func (s *Session) mergeStates(arr []parked) []parked {
 		for i := n - 2; i >= 0; i-- {
 			out = Ite(flags[i], vals[i], out)
 		}
-		// name the merged value to keep later terms small
 		nm := s.fresh("mrg", out.Sort)
 		m.pc = append(m.pc, Assump{Eq(nm, out), ""})
 		return nm
 	}
-	// heap: every entry that any state knows explicitly, plus epoch differences
 	keys := map[string]bool{}
 	epochDiffer := false
 	for _, p := range arr {
@@ -193,66 +220,90 @@ func (s *Session) mergeStates(arr []parked) []parked {
 		}
 		m.heap[key] = pickT(vals)
 	}
-	// frame
-	fr := &Frame{fn: base.fr.fn, regs: map[ssa.Value]Value{}, cells: map[*ssa.Alloc]Term{}, k: base.fr.k, entry: base.fr.entry, params: base.fr.params, callN: map[string]int{}, defers: append([]deferred(nil), base.fr.defers...)}
-	m.fr = fr
-	for a := range base.fr.cells {
-		vals := make([]Term, 0, n)
-		for _, p := range arr {
-			v, ok := p.st.fr.cells[a]
-			if !ok {
-				break
-			}
-			vals = append(vals, v)
-		}
-		if len(vals) == n {
-			fr.cells[a] = pickT(vals)
+	// frame chain, innermost first
+	frames := make([][]*Frame, n)
+	for i, p := range arr {
+		for f := p.st.fr; f != nil; f = f.parent {
+			frames[i] = append(frames[i], f)
 		}
 	}
-	for r, v0 := range base.fr.regs {
-		switch x := v0.(type) {
-		case Term:
+	depthN := len(frames[0])
+	newFrames := make([]*Frame, depthN)
+	for lvl := 0; lvl < depthN; lvl++ {
+		bf := frames[0][lvl]
+		nf := &Frame{fn: bf.fn, regs: map[ssa.Value]Value{}, cells: map[*ssa.Alloc]Term{}, k: bf.k, entry: bf.entry, params: bf.params, callN: map[string]int{}, defers: append([]deferred(nil), bf.defers...), depth: bf.depth, inline: bf.inline, site: bf.site}
+		newFrames[lvl] = nf
+	}
+	for lvl := 0; lvl+1 < depthN; lvl++ {
+		newFrames[lvl].parent = newFrames[lvl+1]
+	}
+	remap := func(v Value) Value {
+		for lvl := 0; lvl < depthN; lvl++ {
+			v = s.rebind(v, frames[0][lvl], newFrames[lvl])
+		}
+		return v
+	}
+	for lvl := 0; lvl < depthN; lvl++ {
+		bf, nf := frames[0][lvl], newFrames[lvl]
+		for a := range bf.cells {
 			vals := make([]Term, 0, n)
-			for _, p := range arr {
-				v, ok := p.st.fr.regs[r].(Term)
+			for i := range arr {
+				v, ok := frames[i][lvl].cells[a]
 				if !ok {
 					break
 				}
 				vals = append(vals, v)
 			}
-			if len(vals) == n && sameSort(vals) {
-				fr.regs[r] = pickT(vals)
-			}
-		case *CellPtr:
-			all := true
-			for _, p := range arr {
-				if cp, ok := p.st.fr.regs[r].(*CellPtr); !ok || cp.A != x.A {
-					all = false
-				}
-			}
-			if all {
-				fr.regs[r] = &CellPtr{x.A, fr}
-			}
-		default:
-			// closures, iterators, locations, tuples: keep if structurally identical in all states
-			all := true
-			for _, p := range arr[1:] {
-				if fmt.Sprintf("%v", p.st.fr.regs[r]) != fmt.Sprintf("%v", v0) {
-					all = false
-				}
-			}
-			if all {
-				fr.regs[r] = s.rebind(v0, base.fr, fr)
+			if len(vals) == n {
+				nf.cells[a] = pickT(vals)
 			}
 		}
-	}
-	// deferred closures capture cell pointers of the old frame
-	for i, d := range fr.defers {
-		fr.defers[i].fnv = s.rebind(d.fnv, base.fr, fr)
-		for j, a := range d.args {
-			fr.defers[i].args[j] = s.rebind(a, base.fr, fr)
+		for r, v0 := range bf.regs {
+			switch x := v0.(type) {
+			case Term:
+				vals := make([]Term, 0, n)
+				for i := range arr {
+					v, ok := frames[i][lvl].regs[r].(Term)
+					if !ok {
+						break
+					}
+					vals = append(vals, v)
+				}
+				if len(vals) == n && sameSort(vals) {
+					nf.regs[r] = pickT(vals)
+				}
+			case *CellPtr:
+				all := true
+				for i := range arr {
+					if cp, ok := frames[i][lvl].regs[r].(*CellPtr); !ok || cp.A != x.A {
+						all = false
+					}
+				}
+				if all {
+					nf.regs[r] = remap(x)
+				}
+			default:
+				all := true
+				for i := 1; i < n; i++ {
+					if describe(frames[i][lvl].regs[r]) != describe(v0) {
+						all = false
+					}
+				}
+				if all {
+					nf.regs[r] = remap(v0)
+				}
+			}
+		}
+		for i, d := range nf.defers {
+			nf.defers[i].fnv = remap(d.fnv)
+			na := make([]Value, len(d.args))
+			for j, a := range d.args {
+				na[j] = remap(a)
+			}
+			nf.defers[i].args = na
 		}
 	}
+	m.fr = newFrames[0]
 	for id := range base.seen {
 		vals := make([]Term, 0, n)
 		for _, p := range arr {
@@ -282,7 +333,34 @@ func (s *Session) mergeStates(arr []parked) []parked {
 		m.counts[ck] = pickT(vals)
 	}
 	m.path = append(append([]string(nil), base.path[:commonPath(arr)]...), "M")
-	return []parked{{m, arr[0].from}}
+	return parked{m, arr[0].from}
+}
+
+// describe: structural description of a Go-side value (cell pointers by variable, not by frame)
+func describe(v Value) string {
+	switch x := v.(type) {
+	case *CellPtr:
+		return fmt.Sprintf("cell(%p)", x.A)
+	case *Closure:
+		out := fmt.Sprintf("clo(%p", x.Fn)
+		for _, b := range x.Bind {
+			out += "," + describe(b)
+		}
+		return out + ")"
+	case Tuple:
+		out := "tup("
+		for _, e := range x {
+			out += describe(e) + ","
+		}
+		return out + ")"
+	case *Loc:
+		return fmt.Sprintf("loc(%s,%v)", x.Key, x.Idx)
+	case *Iter:
+		return fmt.Sprintf("iter(%d)", x.id)
+	case nil:
+		return "nil"
+	}
+	return fmt.Sprintf("%v", v)
 }
 
 func sameSort(ts []Term) bool {
